@@ -7,7 +7,8 @@ side condition can be checked syntactically; anything else is left alone (and th
      be side-effect-free expressions (names, attribute chains, constants, `self.time`-arithmetic);
   1b. a call `self.h(..)` inside an expression, h's body being a single `return <constructor call>` or a chain of guard returns of
       side-effect-free values (`if c: return A` .. `return B`, read as `A if c else B`), is replaced by that expression;
-  1c. `for x in self.h(..):` / `y = self.h(..)`, h straight-line code ending in its only `return <expr>` whose locals do not occur in the
+  1c. `for x in self.h(..):` / `y = self.h(..)` / `return self.h(..)` (an argument may be a one-parameter lambda, applied by
+      substitution where h calls it), h straight-line code ending in its only `return <expr>` whose locals do not occur in the
       caller: h's statements are spliced in front and the call replaced by the returned expression;
   2. `for v in (e1, .., en):` over a tuple / list literal of side-effect-free expressions is unrolled;
   3. a guard clause `if c: A; return` followed by R (in a method that returns nothing) becomes `if c: A  else: R`;
@@ -158,23 +159,43 @@ def inline_exprs(body, cls):
     return [ast.fix_missing_locations(_InlineExpr(cls).visit(copy.deepcopy(s))) for s in body]
 
 
+def _lam(e):
+    """a lambda of one parameter whose body reads only that parameter and side-effect-free outer values through calls of the form
+    `x.method(k=v)` - a getter handed to a helper"""
+    return (isinstance(e, ast.Lambda) and len(e.args.args) == 1 and not (e.args.vararg or e.args.kwarg or e.args.kwonlyargs or e.args.defaults))
+
+
+class _Beta(ast.NodeTransformer):
+    def visit_Call(self, node):
+        self.generic_visit(node)
+        f = node.func
+        if isinstance(f, ast.Lambda) and len(f.args.args) == 1 and len(node.args) == 1 and not node.keywords and pure(node.args[0]):
+            return _Subst({f.args.args[0].arg: node.args[0]}).visit(copy.deepcopy(f.body))
+        return node
+
+
+def _beta(stmt):
+    return ast.fix_missing_locations(_Beta().visit(stmt))
+
+
 def inline_value_helpers(body, cls, caller_names=None):
     """step 1c: `for x in self.h(..):` / `y = self.h(..)` where h is a plain method whose body is straight-line code ending in its only
     `return <expr>`, with side-effect-free arguments and locals that do not occur in the caller: h's statements are spliced in front and
     the call is replaced by the returned expression"""
     if caller_names is None:
-        caller_names = {n.id for q in body for n in ast.walk(q) if isinstance(n, ast.Name)}
+        lam_params = {a.arg for q in body for n in ast.walk(q) if isinstance(n, ast.Lambda) for a in n.args.args}
+        caller_names = {n.id for q in body for n in ast.walk(q) if isinstance(n, ast.Name)} - lam_params
     out = []
     for s in body:
         call = None
         if isinstance(s, ast.For) and isinstance(s.iter, ast.Call):
             call = s.iter
-        elif isinstance(s, (ast.Assign, ast.AnnAssign)) and isinstance(getattr(s, "value", None), ast.Call):
+        elif isinstance(s, (ast.Assign, ast.AnnAssign, ast.Return)) and isinstance(getattr(s, "value", None), ast.Call):
             call = s.value
         done = False
         if call is not None and isinstance(call.func, ast.Attribute) and isinstance(call.func.value, ast.Name) and call.func.value.id == "self":
             hs = [n for n in cls.body if isinstance(n, ast.FunctionDef) and n.name == call.func.attr and not n.decorator_list]
-            if len(hs) == 1 and all(pure(a) for a in call.args) and all(k.arg and pure(k.value) for k in call.keywords):
+            if len(hs) == 1 and all(pure(a) or _lam(a) for a in call.args) and all(k.arg and (pure(k.value) or _lam(k.value)) for k in call.keywords):
                 h = hs[0]
                 a = h.args
                 params = [x.arg for x in a.args][1:]
@@ -189,8 +210,8 @@ def inline_value_helpers(body, cls, caller_names=None):
                     for k in call.keywords:
                         m[k.arg] = k.value
                     if sorted(m) == sorted(params):
-                        out += subst(hb[:-1], m)
-                        ret = subst([ast.Expr(value=hb[-1].value)], m)[0].value
+                        out += [_beta(q) for q in subst(hb[:-1], m)]
+                        ret = _beta(subst([ast.Expr(value=hb[-1].value)], m)[0]).value
                         q = copy.deepcopy(s)
                         if isinstance(q, ast.For):
                             q.iter = ret
